@@ -52,7 +52,9 @@ func val(p, i int) string { return fmt.Sprintf("p%d.%d", p, i) }
 
 func (x *exec) Main() {
 	vsched.NoPreempt(true)
-	queue.VerifSetBufSize(x.sc.bufSize)
+	if x.sc.bufSize != queue.VerifBufSize {
+		lib.Infra("the scenarios are written for a queue capacity of %d, the code has %d", x.sc.bufSize, queue.VerifBufSize)
+	}
 	x.pq = queue.NewPriorityQueue()
 	vsched.NoPreempt(false)
 	for p, msgs := range x.sc.producers {
@@ -210,24 +212,24 @@ func scenarios(c *lib.Ctx) []*scen {
 			{{2, 0}, {1, 0}, {3, 0}},
 			{{2, 5}, {3, 5}}}},
 	}
-	// scaled model: capacity 2, every priority assignment over {1,2,3} is too
-	// many; all assignments over {1,3} for 2 producers x 2 messages + a third
-	// producer with a fixed pair
+	// every priority assignment over {1,3} for four of the messages of three
+	// producers that together send one message more than the queue holds (so
+	// that a producer can block on the full queue while the consumer chooses)
 	var scaled []*scen
 	prios := []int{1, 3}
 	for a := 0; a < 16; a++ {
 		p := func(bit int) int { return prios[(a>>bit)&1] }
-		scaled = append(scaled, &scen{name: fmt.Sprintf("B-buf2-prio%04b", a), bufSize: 2, producers: [][]msg{
-			{{p(0), 1}, {p(1), 1}},
-			{{p(2), 2}, {p(3), 0}},
-			{{2, 0}, {2, 3}}}})
+		scaled = append(scaled, &scen{name: fmt.Sprintf("B-buf8-prio%04b", a), bufSize: 8, producers: [][]msg{
+			{{p(0), 1}, {p(1), 1}, {2, 1}},
+			{{p(2), 2}, {p(3), 0}, {3, 2}},
+			{{2, 0}, {2, 3}, {1, 3}}}})
 	}
 	qb, tb := 2, 3
 	for _, s := range real {
 		s.maxBound = lib.Pick(c, qb, tb)
 	}
 	for _, s := range scaled {
-		s.maxBound = lib.Pick(c, 2, 4)
+		s.maxBound = lib.Pick(c, 2, 3)
 	}
 	if c.Quick() {
 		scaled = []*scen{scaled[0b0110], scaled[0b1001], scaled[0b1111], scaled[0b0011]}
@@ -255,7 +257,7 @@ func build(c *lib.Ctx) []*sched.Scenario {
 	// too; smaller bound
 	for _, s := range scenarios(c) {
 		s := s
-		if c.Quick() && strings.HasPrefix(s.name, "B-") && s.name != "B-buf2-prio0110" {
+		if c.Quick() && strings.HasPrefix(s.name, "B-") && s.name != "B-buf8-prio0110" {
 			continue
 		}
 		total := 0
